@@ -34,7 +34,7 @@ CHECKS = {
             "technique": "stateful property-based testing (rapid): scripted adversarial agent + independent verification of the challenge response + handler-order model",
         },
         "assumptions": ["the CA double and the steps after authentication are honest, so 'a handler authenticates' implies 'the run succeeds'"],
-        "subchecks": [R("TestC01Auth", 300, 2000, qs=2)],
+        "subchecks": [R("TestC01Auth", 300, 2000, qs=2), R("TestC01ChallengeHelper", 2000, 20000)],
     },
     "C02": {
         "pkg": "c02", "level": "exploration",
@@ -137,7 +137,7 @@ CHECKS = {
             "technique": "stateful property-based testing (rapid): differential pair + reference model",
         },
         "assumptions": ["golang.org/x/crypto keyring is the underlying agent"],
-        "subchecks": [R("TestC09NoUpstream", 300, 1500, qs=2)],
+        "subchecks": [R("TestC09NoUpstream", 300, 1500, qs=2), R("TestC09Many", 25, 250, ts=4)],
     },
     "C10": {
         "pkg": "c10", "level": "exploration",
@@ -181,6 +181,7 @@ CHECKS = {
             R("TestC12Stream", 5000, 50000),
             R("TestC12StreamReal", 300, 2000, ts=8),
             R("TestC12LocalSlots", 60, 600, ts=4),
+            E("TestC12SlowHandler"),
             F("FuzzC12Stream", "90s"),
         ],
     },
@@ -258,6 +259,7 @@ CHECKS = {
         "assumptions": ["loopback aliases 127.0.0.2..5 can be bound on one common port", "status codes stand for the CA's RPC failures"],
         "subchecks": [
             E("TestC17Vectors"),
+            E("TestC17Deadline"),
             R("TestC17Failover", 100, 600, qs=2),
             R("TestC17Backoff", 50000, 1000000),
         ],
@@ -300,6 +302,7 @@ CHECKS = {
         "subchecks": [
             E("TestC20AllCodes", quick={"shards": 1, "timeout": 300}, thorough={"shards": 1, "timeout": 600}),
             R("TestC20Wait", 200, 2000, qs=2, quick_extra={"timeout": 300}),
+            R("TestC20Blackbox", 12, 120, qs=4, ts=8, quick_extra={"timeout": 300}),
         ],
     },
 }
